@@ -107,8 +107,9 @@ pub fn exec_c04(plan: &C04Plan, st: &mut Stats) -> Option<Violation> {
         }
         match step {
             Step::Cleanup => {
-                if let Outcome::Panic(p) = slot.cleanup() {
-                    return viol("panic", format!("cleanup_buffers at step {si}: {p}"));
+                if let Outcome::Panic(_) = slot.cleanup() {
+                    st.inc("panic_not_judged_here"); // a crash is C01's verdict
+                    return None;
                 }
                 st.inc("cleanups");
                 st.states.insert(fnv1a(format!("cleanup/{}/{}", m_ref.is_some(), m_last != m_ref).as_bytes()));
@@ -137,8 +138,9 @@ pub fn exec_c04(plan: &C04Plan, st: &mut Stats) -> Option<Violation> {
                 }
                 st.inc("evaluations");
                 st.hs(&o.class());
-                if let Outcome::Panic(pp) = &o {
-                    return viol("panic", format!("step {si} ({}): {pp}", p.note));
+                if let Outcome::Panic(_) = &o {
+                    st.inc("panic_not_judged_here"); // a crash is C01's verdict; the state is unknown now
+                    return None;
                 }
                 let clean = p.is_clean_valid() && !fired;
                 let spec = p.spec.as_ref();
@@ -176,8 +178,10 @@ pub fn exec_c04(plan: &C04Plan, st: &mut Stats) -> Option<Violation> {
                                 }
                             }
                         }
+                        // Whether a valid picture is accepted at all is C02/C03's business, not
+                        // C04's (which speaks about what happens to accepted and rejected pictures).
                         if !tainted && m_ref.as_ref().map(|r| (r.width, r.height) == (s.width, s.height)).unwrap_or(true) {
-                            return viol("valid picture rejected", format!("step {si} ({}): {}", p.note, o.short()));
+                            st.inc("valid_picture_rejected_not_judged");
                         }
                     }
                     continue;
